@@ -116,12 +116,21 @@ TAct(e) == VecChk("C01.action", V(e.out), GAct(e.g, V(e.a), V(e.v)), TolC01(e.sc
 LogRangeOk(g, lg, sc) ==
   \* every rotating part has norm <= pi (8 ulp slack on the closed end)
   RLeq(MaxTheta2(g, lg), RMul(RSq(PiHi), RAdd(R1, RMul(RFromInt(16), Ulp(sc)))))
+\* log is discontinuous at rotation angle pi: when pi - theta is below the resolution of the scalar type the
+\* computed exp(a) is indistinguishable from exp of the antipodal tangent and log may legitimately return that
+\* one.  The tangent-space round trip is therefore demanded for theta <= pi - 32 ulp(pi); inside that sliver the
+\* round trip is checked in element space instead (exp(log(exp a)) = exp(a), band tolerance).
+UlpSliver(sc) == RMul(RFromInt(32), RMul(Ulp(sc), PiHi))
+TanClearlyBelowPi(g, a, sc) == RLt(MaxTheta2(g, a), RSq(RSub(PiLo, UlpSliver(sc))))
 TExp(e) ==
   LET g == e.g  a == V(e.a)  z == V(e.out)  lg == V(e.log)
       band == TanNearPi(g, a, BandC02(e.sc))
-  IN ElemChk("C02.exp", g, z, XExp(g, a), TolC02(e.sc, FALSE))
-     \o (IF TanBelowPi(g, a)
+      Ea == XExp(g, a)
+  IN ElemChk("C02.exp", g, z, Ea, TolC02(e.sc, FALSE))
+     \o (IF TanClearlyBelowPi(g, a, e.sc)
          THEN VecChk("C02.exp.log", lg, a, TolC02(e.sc, band))
+         ELSE IF TanBelowPi(g, a)
+         THEN MatChk("C02.exp.log.elem", XExp(g, lg), Ea, TolC02(e.sc, TRUE))
          ELSE <<>>)
      \o Chk("C02.log.range", LogRangeOk(g, lg, e.sc), MaxTheta2(g, lg), RSq(PiHi))
 TLog(e) ==
@@ -211,6 +220,75 @@ TC05(e) ==
 TC05Fin(e) == FinM(e.d2r_exp) /\ FinM(e.d2l_exp) /\ FinOpt(e, "d2r_expinv") /\ FinOpt(e, "d2l_expinv")
               /\ FinOpt(e, "d2r_rminus") /\ FinOpt(e, "d2r_rminus_sqn")
 
+\* C06: Bundle = direct product.  `out` is the bundle's result, `parts` the same operation on every part<i>().
+RECURSIVE ConcatSeq(_, _)
+ConcatSeq(ss, i) == IF i > Len(ss) THEN <<>> ELSE ss[i] \o ConcatSeq(ss, i + 1)
+RECURSIVE PrefixRows(_, _)
+PrefixRows(Ms, p) == IF p = 0 THEN 0 ELSE PrefixRows(Ms, p - 1) + Len(Ms[p])     \* total rows of parts 1..p
+\* stacked Hessian of the product: block i, entry (j,k) = d J(i,j)/d a_k is non-zero only inside one part
+BundleHess(n, Hs) ==
+  LET np == Len(Hs)
+      Off(p) == PrefixRows(Hs, p - 1)
+      PartOf(x) == CHOOSE p \in 1..np : x > Off(p) /\ x <= Off(p) + Len(Hs[p])
+  IN RForce([j \in 1..n |-> [col \in 1..(n * n) |->
+        LET i == ((col - 1) \div n) + 1  k == ((col - 1) % n) + 1
+            p == PartOf(j)
+            o == Off(p)  d == Len(Hs[p])
+        IN IF PartOf(i) = p /\ PartOf(k) = p THEN Hs[p][j - o][(i - o - 1) * d + (k - o)] ELSE R0]])
+\* entries outside the parts' own blocks must be exactly zero
+OffBlockZeroH(X, Hs) ==
+  LET np == Len(Hs)  n == Len(X)
+      Off(p) == PrefixRows(Hs, p - 1)
+      PartOf(x) == CHOOSE p \in 1..np : x > Off(p) /\ x <= Off(p) + Len(Hs[p])
+  IN \A j \in 1..n : \A col \in 1..(n * n) :
+        LET i == ((col - 1) \div n) + 1  k == ((col - 1) % n) + 1
+        IN (PartOf(i) = PartOf(j) /\ PartOf(k) = PartOf(j)) \/ RSign(X[j][col]) = 0
+OffBlockZero(X, Ms) ==
+  LET np == Len(Ms)
+      Off(p) == PrefixRows(Ms, p - 1)
+      SameBlock(i, j) == \E p \in 1..np : i > Off(p) /\ i <= Off(p) + Len(Ms[p]) /\ j > Off(p) /\ j <= Off(p) + Len(Ms[p])
+  IN \A i \in 1..Len(X) : \A j \in 1..Len(X[i]) : SameBlock(i, j) \/ RSign(X[i][j]) = 0
+TBParts(e) ==
+  LET t == TolC01(e.sc)  clause == "C06.ops." \o e.sub
+  IN IF e.sub \in {"compose", "inverse", "exp", "log"}
+     THEN LET out == V(e.out)  ps == RForce([i \in 1..Len(e.parts) |-> V(e.parts[i])])
+              want == ConcatSeq(ps, 1)
+          IN IF Len(out) # Len(want) THEN Fail("C06.ops.size", R1, R0)
+             ELSE VecChk(clause, out, want, t)
+     ELSE IF e.sub \in {"d2r_exp", "d2r_expinv"}
+     THEN LET X == M(e.out)  Hs == RForce([i \in 1..Len(e.parts) |-> M(e.parts[i])])
+              Y == BundleHess(Len(X), Hs)
+          IN JacChk("C06.blocks." \o e.sub, X, Y, t)
+             \o Chk("C06.blocks.zero", OffBlockZeroH(X, Hs), R1, R0)
+     ELSE LET X == M(e.out)  Ms == RForce([i \in 1..Len(e.parts) |-> M(e.parts[i])])
+              Y == BlockDiag(Ms)
+          IN MatChk("C06.blocks." \o e.sub, X, Y, t)
+             \o Chk("C06.blocks.zero", OffBlockZero(X, Ms), R1, R0)
+
+\* C06: vectors and scalars through the LieGroup interface are the additive group - exactly
+EqV(x, y) == Len(x) = Len(y) /\ \A i \in 1..Len(x) : REq(x[i], y[i])
+EqM(X, Y) == Len(X) = Len(Y) /\ \A i \in 1..Len(X) : EqV(X[i], Y[i])
+ExactV(clause, x, y) == IF EqV(x, y) THEN <<>> ELSE Fail(clause, VMaxAbsDiff(x, y), R0)
+ExactM(clause, X, Y) == IF EqM(X, Y) THEN <<>> ELSE Fail(clause, R1, R0)
+\* "composition is +": the floating-point sum, i.e. the exact sum to one rounding
+RoundedV(clause, x, y, sc) ==
+  IF Len(x) = Len(y) /\ \A i \in 1..Len(x) : RLeq(RAbs(RSub(x[i], y[i])), RMul(Ulp(sc), RAbs(y[i])))
+  THEN <<>> ELSE Fail(clause, VMaxAbsDiff(x, y), Ulp(sc))
+TRn(e) ==
+  LET a == V(e.a)  b == V(e.b)  n == Len(a)  I == MId(n)  Z == MZero(n, n)  Zh == MZero(n, n * n)
+  IN RoundedV("C06.vector.compose", V(e.compose), VAdd(a, b), e.sc)
+     \o ExactV("C06.vector.inverse", V(e.inverse), VNeg(a))
+     \o ExactV("C06.vector.exp", V(e.exp), b)
+     \o ExactV("C06.vector.log", V(e.log), a)
+     \o ExactV("C06.vector.identity", V(e.identity), VZero(n))
+     \o ExactM("C06.vector.Ad", M(e.Ad), I) \o ExactM("C06.vector.ad", M(e.ad), Z)
+     \o ExactM("C06.vector.dr_exp", M(e.dr_exp), I) \o ExactM("C06.vector.dr_expinv", M(e.dr_expinv), I)
+     \o ExactM("C06.vector.dl_exp", M(e.dl_exp), I) \o ExactM("C06.vector.dl_expinv", M(e.dl_expinv), I)
+     \o ExactM("C06.vector.d2r_exp", M(e.d2r_exp), Zh) \o ExactM("C06.vector.d2r_expinv", M(e.d2r_expinv), Zh)
+     \o (IF e.dof = n /\ e.size = n THEN <<>> ELSE Fail("C06.vector.dof", R1, R0))
+     \o RoundedV("C06.vector.rplus", V(e.rplus), VAdd(a, b), e.sc)
+     \o RoundedV("C06.vector.rminus", V(e.rminus), VSub(a, b), e.sc)
+
 ---------------------------------------------------------------------------
 Check(e) ==
   CASE e.op = "compose" -> IF FinV(e.out) THEN TCompose(e) ELSE NonFinite("C01.compose")
@@ -232,6 +310,8 @@ Check(e) ==
     [] e.op = "c04" -> IF TC04Fin(e) THEN TC04(e) ELSE NonFinite("C04.dr_exp")
     [] e.op = "dr_action" -> IF FinM(e.out) THEN TDrAction(e) ELSE NonFinite("C04.action")
     [] e.op = "c05" -> IF TC05Fin(e) THEN TC05(e) ELSE NonFinite("C05.d2r_exp")
+    [] e.op = "bparts" -> TBParts(e)
+    [] e.op = "rn" -> TRn(e)
     [] OTHER -> <<[clause |-> "TOOL.unknown_op", err |-> e.op, tol |-> ""]>>
 
 \* operands outside the property's domain are a harness error, never a verdict
@@ -247,6 +327,7 @@ DomainProblems(e) ==
 Stratum(e) ==
   IF e.op \in TanOps THEN ThetaStratum(Theta2(e.g, V(e.a)))
   ELSE IF e.op \in ElemOps THEN ElemStratum(e.g, V(e.a))
+  ELSE IF e.op = "bparts" THEN e.sub
   ELSE "-"
 
 ---------------------------------------------------------------------------
